@@ -610,4 +610,33 @@ stays in the LAS. -/
 example : stageTrace passDemo [⟨1000, false, []⟩, ⟨1100, false, [0xDC, 11, 9]⟩, ⟨1500, false, []⟩] =
     [(1, some [0xDC, 9, 7], 9, true), (0, none, 9, true), (0, none, 9, true)] := by rfl
 
+/-- Non-vacuity of `pass_counting` / `pass_count_run` / `removal_needs_three`: a state satisfying the
+station invariant that has just entered `CheckTokenPass(first)` (the state `passDemo` is in after its
+first poll, up to the time-stamps). -/
+def checkDemo : World :=
+  { s := { demo.s with ring := ring3, st := .checkTokenPass .first, lastBusActivity := some 1066 }, apps := [], rx := [] }
+
+theorem checkDemo_inv : Inv checkDemo.s checkDemo.apps where
+  addr := by decide
+  hsa := by decide
+  ring := ⟨by decide, by decide⟩
+  off := fun h => absurd h (by decide)
+  gap := fun cur h => by cases h; decide
+  await1 := fun a h => by cases h
+  await2 := fun a h => by cases h
+  app := fun h => absurd h (by decide)
+  appWait := fun a d h => by cases h
+  scripts := fun s hs => by cases hs
+  noPassive := fun h => by cases h
+
+example := pass_counting checkDemo checkDemo_inv rfl
+  [⟨1100, false, []⟩, ⟨1500, false, []⟩, ⟨1600, false, []⟩, ⟨2000, false, []⟩, ⟨2500, false, []⟩]
+
+set_option maxRecDepth 100000 in
+/-- … and from it the silent history makes exactly the two repetitions and then removes 9. -/
+example : stageTrace checkDemo [⟨1100, false, []⟩, ⟨1500, false, []⟩, ⟨1600, false, []⟩, ⟨2000, false, []⟩,
+      ⟨2500, false, []⟩] =
+    [(1, none, 9, true), (2, some [0xDC, 9, 7], 9, true), (2, none, 9, true),
+     (3, some [0xDC, 9, 7], 9, true), (1, some [0xDC, 3, 7], 3, false)] := by rfl
+
 end PV.C11
